@@ -72,13 +72,81 @@ type RPlan struct {
 	// under 2^24 it is cyclic), so only what C01 promises - exactly once,
 	// grouped, in push order, not split - is judged in this mode.
 	Scatter []uint32 `json:"scatter,omitempty"`
+	// Soak, when set, replaces Ops by a long history generated from this recipe
+	// at execution time (the plan stays small and shrinks by its numbers).
+	Soak *RSoak `json:"soak,omitempty"`
 	Ops     []ROp    `json:"ops"`
 	// Fired counts, per stream-fault kind, how often the generator applied it
 	// while producing Ops (evidence only; stale after shrinking).
 	Fired []int `json:"fired,omitempty" shrink:"-"`
 }
 
+// RSoak is the recipe of a long, mostly orderly history: N events in
+// ascending sequence order, each a few records, with now and then a gap, an
+// event that never completes, a straggler, a Maintain call or a sleep.
+type RSoak struct {
+	N     int    `json:"n"`               // events
+	Seed  uint64 `json:"seed"`            // drives the details
+	Gap   int    `json:"gap_pct"`         // per cent of events followed by a gap of 1..3 numbers
+	Open  int    `json:"open_pct"`        // per cent of events that lose their terminator
+	Multi int    `json:"multi_pct"`       // per cent of events with 2..5 records (the others are single records)
+	Maint int    `json:"maintain_every"`  // a Maintain call every so many events (0: never)
+	Sleep int64  `json:"sleep_ns"`        // virtual time slept every 97 events
+	Raw   bool   `json:"raw,omitempty"`   // records go through Push (text) instead of PushMessage
+	Close bool   `json:"close,omitempty"` // Close at the end
+}
+
+func expandSoak(p *RPlan) []ROp {
+	k := p.Soak
+	r := core.NewRng(k.Seed | 1)
+	push := opPushMsg
+	if k.Raw {
+		push = opPushRaw
+	}
+	ops := make([]ROp, 0, 3*k.N+16)
+	off := uint32(0)
+	for e := 0; e < k.N && off < spanMax-8; e++ {
+		if r.Chance(k.Multi, 100) {
+			n := r.Range(1, 4)
+			ops = append(ops, ROp{K: push, Off: off, Typ: tSYSCALL})
+			for j := 1; j < n; j++ {
+				ops = append(ops, ROp{K: push, Off: off, Typ: core.Pick[uint16](r, tPATH, tCWD, tEXECVE)})
+			}
+			if !r.Chance(k.Open, 100) {
+				ops = append(ops, ROp{K: push, Off: off, Typ: core.Pick[uint16](r, tPROCTITLE, tPROCTITLE, tEOE)})
+			}
+		} else {
+			ops = append(ops, ROp{K: push, Off: off, Typ: core.Pick[uint16](r, tUSERAUTH, tLOGIN, tANOM, 1112)})
+		}
+		if e%211 == 210 && off > 3 {
+			ops = append(ops, ROp{K: push, Off: off - 2, Typ: tPATH}) // a straggler
+		}
+		if k.Maint > 0 && e%k.Maint == k.Maint-1 {
+			ops = append(ops, ROp{K: opMaintain})
+		}
+		if k.Sleep > 0 && e%97 == 96 {
+			ops = append(ops, ROp{K: opSleep, D: k.Sleep})
+		}
+		off++
+		if r.Chance(k.Gap, 100) {
+			off += uint32(r.Range(1, 3))
+		}
+	}
+	if k.Close {
+		ops = append(ops, ROp{K: opClose})
+	}
+	return ops
+}
+
 func (p *RPlan) Valid() bool {
+	if p.Soak != nil {
+		k := p.Soak
+		if k.N < 1 || k.N > 70000 || k.Gap < 0 || k.Gap > 100 || k.Open < 0 || k.Open > 100 || k.Multi < 0 || k.Multi > 100 || k.Maint < 0 || k.Sleep < 0 ||
+			len(p.Ops) != 0 || p.WideB != 0 || len(p.Scatter) != 0 || p.Max < 0 || p.Max > 64 {
+			return false
+		}
+		return true
+	}
 	if p.Max < 0 || p.Max > 64 || len(p.Ops) > 1000 {
 		return false
 	}
@@ -153,6 +221,14 @@ type genEvent struct {
 // a property cares about: 0 neutral, 3 = loss accounting (C03), 10 = buffer /
 // eviction (C10), 19 = time (C19), 2 = disorder (C02).
 func GenRPlan(r *core.Rng, tilt int) *RPlan {
+	if r.Chance(1, 1000) {
+		// a long history (what accumulates: counters, slices that are cut from the front, periodic work)
+		p := &RPlan{Max: core.Pick(r, 0, 1, 2, 5, 8, 32), Timeout: core.Pick[int64](r, 2e9, 2e9, 3600e9, 1e6, math.MaxInt64), Base: core.Pick(r, uint32(0), 1, 1<<32-1000, r.U32())}
+		p.Soak = &RSoak{N: core.Pick(r, 300, 600, 1100, 2100, 4200, 9000, 17000, 33000, 66000, 70000), Seed: r.U64(), Gap: core.Pick(r, 0, 0, 1, 5), Open: core.Pick(r, 0, 1, 5),
+			Multi: core.Pick(r, 0, 30, 70, 100), Maint: core.Pick(r, 0, 50, 1000), Sleep: core.Pick[int64](r, 0, 1e6, 500e6), Raw: r.Chance(1, 4), Close: r.Chance(2, 3)}
+		p.Fired = make([]int, nRFaults)
+		return p
+	}
 	p := &RPlan{}
 	p.Max = core.Pick(r, 0, 1, 1, 2, 2, 3, 3, 5, 5, 8, 16, 32)
 	switch {
